@@ -538,9 +538,9 @@ def run(tier, seed, replay=None):
                 disagreements.append({'stream': c['stream'], 'step': k, 'reified_step': s, 'impl': OUT.get(I, I), 'exc': r['exc'][k],
                                       'model': OUT.get(M, M), 'world': r['world'], 'prefix': r['steps'][:k]})
     # shrink: re-run smaller histories that end in the failing step; report the smallest that still fails
-    pending.sort(key=lambda p: (p[1], len(json.dumps(p[0]['steps'][p[1]]))))
     seen_kinds, todo = {}, []
-    for p in [q for q in pending if q[0]['stream'] == 'reentrancy'][:6]:
+    # re-entrancy cases are reported as they are (one enclosing call): smallest first, the enclosing call preferred
+    for p in sorted([q for q in pending if q[0]['stream'] == 'reentrancy'], key=lambda q: (len(json.dumps(q[0]['steps'])), -q[1]))[:6]:
         c, k, what, I, M, S, mm = p
         r, m = res_of[id(c)]
         case = dict(c, reified={'world': r['world'], 'steps': r['steps']}, facts=describe(c, r, k), impl_out=I,
@@ -551,6 +551,7 @@ def run(tier, seed, replay=None):
                             'model_out': OUT.get(M, M), 'spec': VERD.get(S, S), 'failing_step': k,
                             'note': 'reified steps are listed innermost call first, the enclosing call last'})
     pending = [q for q in pending if q[0]['stream'] != 'reentrancy']
+    pending.sort(key=lambda p: (p[1], len(json.dumps(p[0]['steps'][p[1]]))))
     for p in pending:
         c, k, what, I, M, S, mm = p
         key = (what[:40], c['steps'][k][0], I == M)
